@@ -205,7 +205,15 @@ impl Pager {
             .truncate(false)
             .open(&path)?;
 
-        if !existed || file.metadata()?.len() == 0 {
+        // A crash while the file was being created leaves it extended but with an all-zero
+        // header page: nothing was ever stored in it, so initialise it like a new file.
+        let header_unwritten = existed && file.metadata()?.len() >= PAGE_SIZE as u64 && {
+            let mut first = [0u8; PAGE_SIZE];
+            read_page_raw(&file, META_PAGE_ID, &mut first)?;
+            first.iter().all(|b| *b == 0)
+        };
+
+        if !existed || file.metadata()?.len() == 0 || header_unwritten {
             let meta = Meta::new();
             let bitmap = Bitmap::new();
             #[cfg(nervusdb_verif)]
